@@ -98,11 +98,9 @@ fn case_threads(parts: &[&str], agent: bool) -> String {
         bodies.push(Box::new(move || {
             let mut out: Vec<String> = Vec::new();
             for (typ, len, k) in prog {
-                let bytes = payload(k, len.max(0) as usize);
-                let src_mem = AlignedBuffer::with_capacity((len.max(0) as i32) + 8);
+                let (src_mem, si) = crate::source_for(k, len);
                 let src = AtomicBuffer::from_aligned(&src_mem);
-                src.put_bytes(0, &bytes);
-                let res = ring.write(crate::cmd_of(typ), src, 0, len as i32);
+                let res = ring.write(crate::cmd_of(typ), src, si, len as i32);
                 out.push(fmt_write(Ok(res)));
             }
             format!("{} [{}]", if agent { "ATProd" } else { "TProd" }, out.join("; "))
